@@ -32,6 +32,8 @@ Max2(a, b)   == IF a > b THEN a ELSE b
 (***************************************************************************)
 (* A configuration record `c` has the fields                               *)
 (*   min, max, tol, failures, errors, cfe  - the keyword options           *)
+(*   lags, leads                           - the instance's lag / lead     *)
+(*                                           lengths                       *)
 (*   L, t, offset                          - span length, period as passed *)
 (*                                           (negative spellings allowed), *)
 (*                                           offset                        *)
@@ -92,6 +94,15 @@ GuardMinMax ==
   /\ pc = "guard"
   /\ IF cfg.min > cfg.max
        THEN Finish("ValueError", "none")
+       ELSE pc' = "feasible" /\ UNCHANGED res
+  /\ UNCHANGED <<cfg, k, cells, cv, pv, pend, st, it, hist, nB, nA, nP, hb, ha, wb, wa, hc, hr, other>>
+
+(* a period that cannot accommodate the instance's lags and leads is rejected (IndexError) before anything changes *)
+Infeasible == TPos - cfg.lags < 0 \/ TPos + cfg.leads >= cfg.L
+GuardFeasible ==
+  /\ pc = "feasible"
+  /\ IF Infeasible
+       THEN Finish("IndexError", "none")
        ELSE pc' = "offset" /\ UNCHANGED res
   /\ UNCHANGED <<cfg, k, cells, cv, pv, pend, st, it, hist, nB, nA, nP, hb, ha, wb, wa, hc, hr, other>>
 
@@ -220,7 +231,7 @@ DoBefore == \E b \in HookOuts, w \in HookWrites : (w = <<>> \/ Len(w) = NV) /\ B
 DoPass   == \E o \in PassOuts : Pass(o)
 DoAfter  == \E a \in HookOuts, w \in HookWrites : (w = <<>> \/ Len(w) = NV) /\ After(a, w)
 
-Next == GuardMinMax \/ OffsetStep \/ PreCheck \/ DoBefore \/ LoopHead \/ DoPass \/ Judge \/ DoAfter \/ Stamp \/ Return
+Next == GuardMinMax \/ GuardFeasible \/ OffsetStep \/ PreCheck \/ DoBefore \/ LoopHead \/ DoPass \/ Judge \/ DoAfter \/ Stamp \/ Return
 
 Spec     == Init /\ [][Next]_vars
 FairSpec == Spec /\ WF_vars(Next)
@@ -252,6 +263,7 @@ Converges(j)  == /\ ~PassRaises(j)
 
 OffsetBad    == cfg.offset # 0 /\ (TPos + cfg.offset < 0 \/ TPos + cfg.offset >= cfg.L)
 RejectedKind == IF cfg.min > cfg.max THEN "ValueError"
+                ELSE IF Infeasible THEN "IndexError"
                 ELSE IF OffsetBad THEN "IndexError"
                 ELSE IF cfg.errors = "raise" /\ AnyNF(CellsStart) THEN "SolutionError"
                 ELSE "none"
@@ -327,7 +339,7 @@ C06_NeverJudged ==
 (* C04 (solver part): nothing outside period t is written *)
 C04_OnlyT == other = FALSE
 
-TypeOK == /\ pc \in {"guard", "offset", "precheck", "before", "loop", "pass", "judge", "after", "stamp", "finish", "done", "idle"}
+TypeOK == /\ pc \in {"guard", "feasible", "offset", "precheck", "before", "loop", "pass", "judge", "after", "stamp", "finish", "done", "idle"}
           /\ k \in 0..cfg.max /\ nP = k /\ Len(hist) = k
 
 Termination == <>Done
